@@ -576,7 +576,12 @@ class Sym:
                 else:
                     out.append((s, self.simp(('un', op, v))))
             elif op in ('++', '--'):
-                raise Unsupported('increment/decrement')
+                if v[0] == 'k' and isinstance(v[1], int):
+                    nv = ('k', v[1] + (1 if op == '++' else -1), 'int')
+                else:
+                    nv = ('op', '+' if op == '++' else '-', v, ('k', 1, 'int'))
+                for s2 in self.assign(s, e['e'], nv):
+                    out.append((s2, v if e.get('post') else nv))
             else:
                 raise Unsupported('unary ' + op)
         return out
@@ -829,7 +834,7 @@ class Sym:
         if recv is not None and recv[0] == 'global':
             g = self.global_by_q(recv[1])
             if g is not None:
-                t = g['t'].replace('const ', '').strip()
+                t = g['t'].replace('const ', '').replace('(anonymous namespace)', '(anon)').strip()
                 if t in self.F.rec:
                     return t
         return None
@@ -892,7 +897,7 @@ class Sym:
         if not obj_expr:
             return None
         t = obj_expr.get('t', '')
-        t = t.replace('const ', '').replace(' *', '').replace(' &', '').strip()
+        t = t.replace('const ', '').replace(' *', '').replace(' &', '').replace('(anonymous namespace)', '(anon)').strip()
         return t if t in self.F.rec else None
 
     # --------------------------------------------------------------- intrinsics
